@@ -7,6 +7,12 @@
 (*        children apart (the harness adds a seeded sample of the others)  *)
 (*   <<"CLS", kind, {ids}>>              the classes of the coarsest       *)
 (*        admissible == (loose canon) with > 1 member: source of triples   *)
+(*   <<"SHAPE", kind, id, shape>>        the cell structure of the object  *)
+(*        as the copy requirement sees it: per child group the number of   *)
+(*        bag entries (and whether one has the value None) or the shape of *)
+(*        the value slot (absent / none / scalar / EMPTY array / array /   *)
+(*        object / array of objects); the harness copies and mutates at    *)
+(*        least one object of every (kind, shape) class                    *)
 (* The harness builds real objects from the nodes; every observed vector   *)
 (* goes back to TLC (CimEqTrace) for the verdict.                          *)
 (***************************************************************************)
@@ -19,14 +25,31 @@ Apart(a, b) ==
      /\ Cardinality({i \in 1..Len(a.at) : a.at[i] # b.at[i]}) = 1
   \/ /\ a.at = b.at /\ a.ch = b.ch
      /\ Cardinality({i \in 1..Len(a.nm) : a.nm[i].b # b.nm[i].b}) = 1
-  \/ /\ a.at = b.at /\ a.ch # b.ch /\ Len(a.nm) > 0
+  \/ /\ a.at = b.at /\ a.ch # b.ch /\ (Len(a.nm) > 0 \/ a.k = "NocaseDict")
      /\ \A i \in 1..Len(a.nm) : a.nm[i].b = b.nm[i].b
+
+SlotShape(g) ==
+  IF g = <<>> THEN "absent"
+  ELSE LET v == g[1].n IN
+       IF v.k = "S" THEN (IF IsNone(v) THEN "none" ELSE "scalar")
+       ELSE IF v.k = "L"
+       THEN (IF v.ch[1] = <<>> THEN "empty-array"
+             ELSE IF v.ch[1][1].n.k \in {"S", "DateTime"} THEN "array"
+             ELSE "array-of-objects")
+       ELSE "object"
+BagShape(g) ==
+  ToString(Len(g)) \o (IF \E i \in 1..Len(g) : IsNone(g[i].n)
+                        THEN "+none" ELSE "")
+CopyShape(n) ==
+  [g \in 1..Len(n.ch) |->
+     IF IsBag(n.k, g) THEN BagShape(n.ch[g]) ELSE SlotShape(n.ch[g])]
 
 Emit(k) ==
   LET s == SetToSeq(U(k))
       n == Len(s)
       lc == [i \in 1..n |-> Canon(s[i], "loose", "", "")] IN
   /\ \A i \in 1..n : PrintT(<<"OBJ", k, i, s[i]>>)
+  /\ \A i \in 1..n : PrintT(<<"SHAPE", k, i, CopyShape(s[i])>>)
   /\ \A i \in 1..n : \A j \in (i + 1)..n :
        LET e == AbsEq(s[i], s[j]) IN
        (e # "F" \/ Apart(s[i], s[j])) => PrintT(<<"NEAR", k, i, j, e>>)
